@@ -247,6 +247,11 @@ func (c *ShipConnection) setHandshakeTimer(timerType timeoutTimerType, duration 
 		case <-c.handshakeTimerStopChan:
 			return
 		case <-time.After(duration):
+			// the expiry must not be handled while a message of the remote service is being handled:
+			// that message may stop this timer or move the handshake to another state
+			c.inputMux.Lock()
+			defer c.inputMux.Unlock()
+
 			// a stopped or replaced timer must not fire, even if its stop signal got lost
 			if !c.isHandshakeTimerGeneration(generation) {
 				return
